@@ -66,6 +66,16 @@ def pairing(chk):
                 chk.bad("C13.R1", f"{mi.rel}:{ef[2]}", "Calibration.__enter__", f"handle of {U(ef[1].func)} dropped", f"the handle returned by {U(ef[1].func)} is not kept", "any calibration: the global hook stays registered for the rest of the process")
         ret = p.end[1]
         chk.require("C13.R1", f"{mi.rel}:{p.end[2]}", p.end[0] in ("fall", "return"), "__enter__ completes without raising", "Calibration.__enter__", "enter completes", "any calibration")
+    # platform table (torch/nn/modules/module.py): the handle of a GLOBAL forward hook removes its entry from _global_forward_hooks and from
+    # _global_forward_hooks_always_called (extra_dict), not from _global_forward_hooks_with_kwargs: registering with with_kwargs=True leaves
+    # an entry behind at every exit
+    for nd in ast.walk(enter):
+        if isinstance(nd, ast.Call) and U(nd.func) in HOOK_REGISTRARS:
+            kws = {k.arg: U(k.value) for k in nd.keywords}
+            leak = kws.get("with_kwargs") not in (None, "False")
+            extra = len(nd.args) > 1
+            chk.require("C13.R1", f"{mi.rel}:{nd.lineno}", not leak and not extra, f"{U(nd.func)} is called with the hook alone (keywords {kws}): every table the registration writes is cleaned by the handle", "Calibration.__enter__", "hook registered with with_kwargs",
+                        "any calibration, left normally or by exception: torch.nn.modules.module._global_forward_hooks_with_kwargs keeps one entry per entry of the context (the registries are not restored)")
     # handles kept in a container: it must belong to the instance (a class-level list is shared by every Calibration object)
     shared = {}
     for n_ in ci.node.body:
